@@ -172,27 +172,29 @@ def resetEffectivePath (path : List PathE) (index maxOccur : Nat) : List PathE :
   | some i => path.mapIdx fun j e => if j = i then { e with max := maxOccur } else e
   | none => path
 
-/-- `reset_symmetrical_choices` -/
-def resetSymmetrical (ss : List Site) : List Site :=
+/-- `reset_symmetrical_choices`; `none` = the `assert attr.restrictions.sequence is not None`
+fails (a member of a symmetrical group without a sequence number) -/
+def resetSymmetrical (ss : List Site) : Option (List Site) :=
   let choices := (ss.filterMap (·.choice)).eraseDups.filter (· ≤ 0)
-  choices.foldl (fun (ss : List Site) (c : Int) =>
+  choices.foldlM (fun (ss : List Site) (c : Int) =>
     let grp := ss.filter (·.choice = some c)
     let mins := (grp.map (·.min)).eraseDups
     let maxs := (grp.map (·.max)).eraseDups
-    let seqs := (grp.filterMap (·.sequence)).eraseDups
+    let seqs := (grp.filterMap (fun s => s.sequence.bind fun q => if q = 0 then none else some q)).eraseDups
     if mins.length = 1 && maxs.length = 1 && seqs.length = 1 then
-      ss.map fun s =>
+      if grp.any (·.sequence.isNone) then none else
+      some (ss.map fun s =>
         if s.choice = some c then
           match s.sequence with
           | some sq => { s with choice := none, path := resetEffectivePath s.path sq s.max }
           | none => s
-        else s
-    else ss) ss
+        else s)
+    else some ss) ss
 
 /-- `UpdateAttributesEffectiveChoice.process` -/
-def effectiveChoice (ss : List Site) : List Site :=
+def effectiveChoice (ss : List Site) : Option (List Site) :=
   let groups := groupRepeating ss
-  if groups.isEmpty then ss else
+  if groups.isEmpty then some ss else
   resetSymmetrical (mergeEffective ss (connectedComponents groups))
 
 /-! ### MergeAttributes.merge_duplicate_attrs -/
@@ -217,7 +219,7 @@ def mergeDuplicates (ss : List Site) : List Site :=
         else e) []
 
 /-- the three handlers in the order of `ClassContainer.processors[Steps.FLATTEN]` -/
-def occurs (ss : List Site) : List Site := mergeDuplicates (effectiveChoice (calculatePaths ss))
+def occurs (ss : List Site) : Option (List Site) := (effectiveChoice (calculatePaths ss)).map mergeDuplicates
 
 /-- `Restrictions.is_list` / `is_optional` -/
 def Site.isList (s : Site) : Bool := s.max > 1
